@@ -245,6 +245,9 @@ func stepList(st *job.Step, ev *job.Event, keep bool) {
 		opts = append(opts, connlist.WithStopOnError())
 	}
 	ca := connlist.NewConnlistAnalyzer(opts...)
+	if st.Warm != "" {
+		_, _, _ = ca.ConnlistFromDirPath(st.Warm) // what a long-lived caller does: one analyzer, one directory after the other
+	}
 	var conns []connlist.Peer2PeerConnection
 	var peers []connlist.Peer
 	var err error
